@@ -106,10 +106,14 @@ def judgeE (u e : List CapEv) (pos : Nat) (qfree : Bool) : Bool :=
     let others := (uLater.filter fun ev => ev.id != x.id).map CapEv.triple
     let own := (uLater.filter fun ev => ev.id == x.id).map CapEv.triple
     let before := (u.take (pos + 1)).map CapEv.triple
+    -- a split state of the same match (same id) survived the removal: implementation-defined
+    let ownLater := (uLater.filter fun ev => ev.id == x.id).map CapEv.key
+    let shared := (e.drop (pos + 1)).any fun ev => ev.id == x.id && !ownLater.contains ev.key
+    let strict := qfree && !shared
     decide (e.take (pos + 1) = u.take (pos + 1)) &&
-    (!qfree || subsetB others eLater) &&
-    (!qfree || subsetB eLater (u.map CapEv.triple)) &&
-    (!(qfree && idUnique u x.id && decide ((u.map CapEv.triple).Nodup)) ||
+    (!strict || subsetB others eLater) &&
+    (!strict || subsetB eLater (u.map CapEv.triple)) &&
+    (!(strict && idUnique u x.id && decide ((u.map CapEv.triple).Nodup)) ||
       own.all fun t => others.contains t || before.contains t || !eLater.contains t)
 
 /-! ## (f) predicates -/
